@@ -46,17 +46,22 @@ def make_batch(r, words):
     elif x < 0.3 and lang in ('java', 'kotlin'):
         msgs = [m for ms in truth.values() for m in ms]
         if msgs:
-            frag = r.choice(msgs).split(':')[0].split('(')[0][:24]
-            # a user pattern that matches the whole diagnostic line (re.sub removes only
-            # what the pattern matches)
-            b['filter'] = r'[^\n]*' + re.escape(frag) + r'[^\n]*\n'
+            # 1-3 user patterns, each matching whole diagnostic lines (re.sub removes only
+            # what the pattern matches); the order is the user's
+            pats = []
+            for _ in range(r.choice([1, 1, 2, 3])):
+                frag = r.choice(msgs).split(':')[0].split('(')[0][:24]
+                pat = r'[^\n]*' + re.escape(frag) + r'[^\n]*\n'
+                if pat not in pats:
+                    pats.append(pat)
+            b['filter'] = pats
     return b
 
 
 def judge_batch(b, text, C):
     """-> list of (rule, shape, detail)"""
     lang = b['lang']
-    comp = C[lang](os.path.join(b['dir'], 'src'), [b['filter']] if b['filter'] else None)
+    comp = C[lang](os.path.join(b['dir'], 'src'), list(b['filter']) if b['filter'] else None)
     failed, _ = comp.analyze_compiler_output(text)
     out = []
     if b['crash']:
@@ -74,7 +79,7 @@ def judge_batch(b, text, C):
     want = {}
     for f, msgs in b['truth'].items():
         keep = [m for m in msgs
-                if not (b['filter'] and re.search(b['filter'], _diag_line(lang, f, m)))]
+                if not any(re.search(pt, _diag_line(lang, f, m)) for pt in (b['filter'] or ()))]
         if keep:
             want[f] = keep
     got = {f: list(ms) for f, ms in (failed or {}).items()}
@@ -130,7 +135,8 @@ class C14:
                            'real-javac leg'],
                   'simulated': ['compiler output (scripted peer)', 'PRNG'],
                   'stub': ['kotlinc, groovyc, scalac (absent from the image)']}
-    PROBES = ('java', 'kotlin', 'groovy', 'scala', 'crash', 'crash_so', 'filter', 'noise',
+    PROBES = ('java', 'kotlin', 'groovy', 'scala', 'crash', 'crash_so', 'filter',
+              'several_filters', 'noise',
               'interleave', 'many_errors_one_file', 'real_javac_batch', 'real_javac_errors')
     tiers = {'quick': {'runs': 260, 'wall_s': 100, 'run_timeout_s': 300},
              'thorough': {'runs': 6000, 'wall_s': 1100, 'run_timeout_s': 600}}
@@ -159,7 +165,9 @@ class C14:
             n += 1
             probes[b['lang']] = probes.get(b['lang'], 0) + 1
             for key, flag in (('crash', b['crash']), ('crash_so', b['crash'] == 'so'),
-                              ('filter', b['filter']), ('noise', b['noise']),
+                              ('filter', b['filter']),
+                              ('several_filters', b['filter'] and len(b['filter']) > 1),
+                              ('noise', b['noise']),
                               ('interleave', b['interleave']),
                               ('many_errors_one_file', any(len(m) >= 3 for m in b['truth'].values()))):
                 if flag:
